@@ -720,7 +720,7 @@ COUNT_NONE = _Either((0, None))   # count() over no value at all in a multi-call
 
 
 def evaluate(ds, st, fill_prev_iteration_order=False, keep_null_rows=False, split_row=False, swap_first_last=False,
-             bucket_selector_any=False):
+             bucket_selector_any=False, count_cell_null=False, lossy=False):
     """Expected answer of the statement over the logical contents, ascending orientation.
     -> list of series dicts {tags: {..}, columns: [..], groups: [(time, [value tuples], need)]} or {.., alts: [(time, tuple)]}.
     groups: the actual rows at `time` must be exactly `need` rows forming a sub-multiset of the candidates
@@ -731,7 +731,8 @@ def evaluate(ds, st, fill_prev_iteration_order=False, keep_null_rows=False, spli
     specific kind (fill(previous) walking buckets in output order; rows whose selected fields are all null kept when the
     filter is on another field; the field filter applied separately to the two halves of a row completed after a flush;
     first/last picked in iteration order under ORDER BY time DESC; bucket_selector_any: first()/last() of a time bucket may be
-    the value of any point of the bucket)."""
+    the value of any point of the bucket; count_cell_null: in a statement with several calls a count() cell without values is
+    null or 0; lossy: the value of a non-empty bucket may be replaced by the value an empty bucket would show)."""
     _, tagfn, fieldfn = _pred(st["pred"], ds)
     _, _, lo, hi, labels = _range(st["rng"], ds.T)
     items = parse_sel(st)
@@ -856,15 +857,20 @@ def evaluate(ds, st, fill_prev_iteration_order=False, keep_null_rows=False, spli
                 continue
             row = []
             for j, c in enumerate(cells):
+                empty = [0] if (fill == "0" or calls[j][0] == "count") else [None]
+                if count_cell_null and not single and calls[j][0] == "count":
+                    empty = [COUNT_NONE]
                 if c is None:
                     if fill == "0":
                         c = [0]
                     elif fill == "previous":
                         c = prev[j] if prev[j] is not None else [None]
                     else:
-                        c = [0] if calls[j][0] == "count" else [None]
+                        c = empty
                 else:
                     prev[j] = c
+                    if lossy:
+                        c = list(c) + empty
                 row.append(c)
             groups.append((b, list(itertools.product(*row)), 1))
         groups.sort(key=lambda g_: g_[0])
@@ -908,6 +914,22 @@ def relaxed_fill_expectation(ds, st, or_null=False, **opts):
                     "groups": [(t, c if t in ne else ([(ANY,)] if not or_null else list(c) + [(None,)]), n)
                                for t, c, n in e["groups"]]})
     return out
+
+
+def field_null_between_values(ds, st):
+    """Trigger of a known defect: some series inside the tag predicate has, for a field the statement aggregates, a row where
+    the field is null between (in time) two rows where it has a value."""
+    _, tagfn, _ = _pred(st["pred"], ds)
+    for fld in set(it[2] for it in agg_items(st)):
+        for si in range(3):
+            if tagfn and not tagfn(SERIES[si]):
+                continue
+            has = [v.get(fld) is not None for _, _, _, v in ds.series_rows(si)]
+            if True in has:
+                a, b = has.index(True), len(has) - 1 - has[::-1].index(True)
+                if False in has[a:b + 1]:
+                    return True
+    return False
 
 
 def call_field_type(ds, st):
